@@ -1,3 +1,4 @@
 import AsphaltModel.Basic
 import AsphaltModel.Config
 import AsphaltModel.Context
+import AsphaltModel.Signal
